@@ -1400,6 +1400,7 @@ func runC04(c *core.Ctx) core.Meta {
 	checkSRegOperandRange(c)
 
 	checkIntegerWidths(c, "R04.43", "A field the decoder takes out of the instruction word is not put through a signed type on its way into the Inst: an immediate, an offset or a register code is the unsigned number the encoding holds, and whoever needs it signed extends it where it is used.", 20, []widthScope{{rel: instsPkg, filter: inFile(c, "disassembler.go")}}, []string{"sign-extend"}, widthAllowC04)
+	checkPrinterDoesNotWriteInst(c)
 	return core.Meta{Level: "other",
 		Explanation: "Totality and determinism of decoding decided from tables and code shape of amd/insts: the 18-row format table (mask/encoding/overlap/order/opcode field), the ~1000-row decode table evaluated from constant expressions incl. the VOP1→VOP3a copy loop (duplicates, field width, VOP3b routing, dispatch coverage), every getOperand call site against the computed set of defined operand codes with an interval analysis of the code argument, buffer-access bounds per format, size accounting, and error handling at the three callers.",
 		NotDecided:  "decode(encode(d)) = d (value level): field extraction positions versus the ISA encodings and the printer are not compared; an instruction with two literal operands is not modelled",
